@@ -11,8 +11,10 @@ ENTRY = {
             'triangle) against the exact solution of the linearised system, singular Jacobian must raise, exact hit is a no-op; '
             'triangles degree 1..10: Jacobian nets on all unit nets, Jacobian determinant by polarisation on pairs of unit nets at '
             'dyadic points (exact) and binary64 nets; distinct by hash of exact inputs',
-    'partial': ['triangle Jacobian nets / determinant / triangle Newton step: checked against the exact specification on the real code; '
-                'their Lean theorems (jacobian nets = partial derivatives) are stated once the triangle model is linked'],
+    'partial': [
+                'proved for every degree (Props/C11Triangle): the running indices of jacobian_s / jacobian_t, jacobian nets = formal partial derivatives (pderiv in MvPolynomial (Fin 2) K) of the surface polynomial, jacobian_det = x_s y_t - x_t y_s of those derivatives, the triangle Newton step solves the linearised 2x2 system uniquely when det != 0 (both code branches) and is a no-op on a zero residual; curves: hodograph = derivative for every degree, curvature formula, Newton steps (Props/C11)',
+                'not proved: binary64 rounding of the derivative nets (checked in regime T against the exact values with a tolerance from the C01/C05 rounding theorems); the singular-Jacobian ValueError is compared on exact data only',
+    ],
     'trusted_base': ['modelled not verified: evaluate_hodograph / get_curvature / newton_refine in curve_helpers.py and curve.f90; '
                      'spec-checked only: jacobian_both, jacobian_det (triangle_helpers.py, triangle.f90), newton_refine of '
                      'intersection_helpers.py / curve_intersection.f90 and triangle_intersection.py / .f90; libm sqrt in the curvature denominator'],
